@@ -97,6 +97,21 @@ func ifs(n ast.Node, needles ...string) []*ast.IfStmt {
 	return out
 }
 
+// oneIfInit: the single `if` whose init statement contains the needle.
+func oneIfInit(where string, n ast.Node, needle string) *ast.IfStmt {
+	var out []*ast.IfStmt
+	ast.Inspect(n, func(x ast.Node) bool {
+		if s, ok := x.(*ast.IfStmt); ok && s.Init != nil && strings.Contains(src(s.Init), needle) {
+			out = append(out, s)
+		}
+		return true
+	})
+	if len(out) != 1 {
+		fail("%s: expected exactly one `if` whose init contains %q, found %d", where, needle, len(out))
+	}
+	return out[0]
+}
+
 func oneIf(where string, n ast.Node, needles ...string) *ast.IfStmt {
 	l := ifs(n, needles...)
 	if len(l) != 1 {
@@ -531,6 +546,55 @@ func main() {
 			return true
 		})
 		addStr("cleanerSlices", strings.Join(slices, " ; "))
+	}
+
+	// Start: the replication-factor guard, the loop over the addresses, the revision fence
+	{
+		f := control.fn("Controller", "Start")
+		i := oneIf("Start", f, "len(addresses) > c.ReplicationFactor")
+		addFn("startOverRF", "(n rf : Nat)", "Bool", tr("Start", i.Cond, map[string]string{
+			"len(addresses)": "n", "c.ReplicationFactor": "rf"}), "controller/control.go Start "+hash(i.Cond))
+		var loops []string
+		guardBeforeReset := false
+		for _, st := range f.Body.List {
+			if st == ast.Stmt(i) {
+				guardBeforeReset = true
+			}
+			if strings.HasPrefix(src(st), "c.reset()") && st.Pos() < i.Pos() {
+				guardBeforeReset = false
+			}
+			if r, ok := st.(*ast.RangeStmt); ok {
+				x := src(r.X)
+				if x == "addresses" || x == "c.replicas" || x == "revisionCounters" {
+					loops = append(loops, src(r))
+				}
+			}
+		}
+		addStr("startGuardBeforeReset", fmt.Sprint(guardBeforeReset))
+		addStr("startLoops", strings.Join(loops, " ;; "))
+		ads := control.fn("Controller", "addReplicaDuringStartNoLock")
+		var order []string
+		ast.Inspect(ads, func(x ast.Node) bool {
+			if c, ok := x.(*ast.CallExpr); ok {
+				t := src(c.Fun)
+				for _, w := range []string{"c.factory.Create", "c.rmReplicaFromRegisteredReplicas", "c.addReplicaNoLock", "c.backend.GetCloneStatus", "c.RemoveReplicaNoLock", "c.backend.SetReplicaMode", "c.setReplicaModeNoLock"} {
+					if t == w {
+						order = append(order, src(c))
+					}
+				}
+			}
+			return true
+		})
+		addStr("startOneOrder", strings.Join(order, " ; "))
+	}
+	// createDisk: what happens when the rewrite of volume.meta reports an error
+	{
+		f := rep.fn("Replica", "createDisk")
+		i := oneIfInit("createDisk", f, "r.encodeToFile(&info, volumeMetaData)")
+		addStr("createDiskVolMetaFailure", src(i.Body))
+		g := rep.fn("Replica", "revertDisk")
+		j := oneIfInit("revertDisk", g, "r.encodeToFile(&info, volumeMetaData)")
+		addStr("revertDiskVolMetaFailure", src(j.Body))
 	}
 
 	// ---- emit ---------------------------------------------------------------------------
